@@ -55,12 +55,105 @@ double dist_dev(const Mat& Y1, const Mat& Y2, double factor = 1.0)
 }
 
 // ------------------------------------------------------------------------------------------------ C12
+// mode=emit: the plain call of a case, written to a file (used for the fresh-process reference of the history leg)
+void run_emit(const Case& c, Result& r)
+{
+    Mat X = make_data(c);
+    Run base;
+    do_embed(base, X, c);
+    FILE* f = fopen(c.s("emit").c_str(), "wb");
+    if (!f)
+        return;
+    long ok = base.o.what == "ok" ? 1 : 0, rows = base.o.out.embedding.rows(), cols = base.o.out.embedding.cols();
+    fwrite(&ok, sizeof ok, 1, f);
+    fwrite(&rows, sizeof rows, 1, f);
+    fwrite(&cols, sizeof cols, 1, f);
+    Mat Y = base.o.out.embedding;
+    if (ok)
+        fwrite(Y.data(), sizeof(double), (size_t)Y.size(), f);
+    fclose(f);
+    r.nontrivial = false;
+}
+
+// The same call in a process of its own (this executable re-run on a one-case file): no earlier call has happened there, so
+// write-once state (function-local statics, lazily filled caches) is in its initial condition. Returns false if it cannot be had.
+bool fresh_process_embedding(const Case& c, Mat& Y, std::string& what)
+{
+    char base[] = "/tmp/vh_fresh_XXXXXX";
+    int fd = mkstemp(base);
+    if (fd < 0)
+        return false;
+    close(fd);
+    std::string cases = std::string(base) + ".cases", out = std::string(base) + ".out", bin = std::string(base) + ".bin";
+    {
+        std::ofstream cf(cases);
+        for (auto& kv : c.kv)
+            if (kv.first != "mode" && kv.first != "emit" && kv.first != "timeout" && kv.first != "id")
+                cf << kv.first << "=" << kv.second << " ";
+        cf << "mode=emit emit=" << bin << " id=fresh timeout=250\n";
+    }
+    char exe[4096];
+    ssize_t n = readlink("/proc/self/exe", exe, sizeof exe - 1);
+    bool got = false;
+    if (n > 0)
+    {
+        exe[n] = 0;
+        std::string cmd = std::string("'") + exe + "' '" + cases + "' '" + out + "' >/dev/null 2>&1";
+        int rc = std::system(cmd.c_str());
+        (void)rc;
+        FILE* f = fopen(bin.c_str(), "rb");
+        if (f)
+        {
+            long ok = 0, rows = 0, cols = 0;
+            if (fread(&ok, sizeof ok, 1, f) == 1 && fread(&rows, sizeof rows, 1, f) == 1 && fread(&cols, sizeof cols, 1, f) == 1)
+            {
+                what = ok ? "ok" : "threw";
+                got = true;
+                if (ok && rows >= 0 && cols >= 0 && rows * cols < (1L << 26))
+                {
+                    Y.resize(rows, cols);
+                    got = fread(Y.data(), sizeof(double), (size_t)(rows * cols), f) == (size_t)(rows * cols);
+                }
+            }
+            fclose(f);
+        }
+    }
+    unlink(base);
+    unlink(cases.c_str());
+    unlink(out.c_str());
+    unlink(bin.c_str());
+    return got;
+}
+
+// the two preceding calls of the history leg that resemble the call under test
+void related_history(const Case& c, const Mat& X, Result& r)
+{
+    // the first has the same data but other parameters, the second the same method, size and parameters but other data
+    // (what a value kept from the first call of a kind, or a cache keyed by size / method / address, would confuse)
+    Case cp = c;
+    cp.kv["td"] = sf("%ld", c.i("td", 2) == 1 ? 2 : 1);
+    cp.kv["k"] = sf("%ld", c.i("k", 6) + 1);
+    cp.kv["width"] = "7.5";
+    cp.kv["timesteps"] = sf("%ld", c.i("timesteps", 3) + 1);
+    Run same_data;
+    do_embed(same_data, X, cp, false);
+    Case cs = c;
+    cs.kv["dseed"] = sf("%ld", c.i("dseed", 1) + 1);
+    Run same_size;
+    do_embed(same_size, make_data(cs), cs, false);
+    r.addnum("history_calls", 2);
+}
+
 void run_meta(const Case& c, Result& r)
 {
     Mat X = make_data(c);
     int N = (int)X.cols(), D = (int)X.rows();
     std::string m = c.s("method"), tr = c.s("transform");
     Rng g((uint64_t)c.i("tseed", 3) * 7 + 1);
+    // history leg: the related calls come before the first call under test as well (plus whatever earlier cases of this
+    // process have called), the unrelated ones between the two calls; both are compared with a fresh process
+    if (tr == "hist")
+        related_history(c, X, r);
     Run base;
     do_embed(base, X, c);
     if (base.o.what != "ok")
@@ -164,21 +257,7 @@ void run_meta(const Case& c, Result& r)
         // 1-6 other embed calls first (other methods, parameters, sizes; some of them throw)
         int n = 1 + g.below(6);
         static const char* others[] = {"pca", "mds", "klle", "le", "isomap", "dm", "spe", "rp", "lmds", "kltsa", "hlle", "fa", "passthru", "lpp"};
-        // the first preceding call has the same method, size and parameters but other data, the second the same data but other
-        // parameters (what a cache keyed by size / method / address would confuse); the rest is unrelated
-        {
-            Case cs = c;
-            cs.kv["dseed"] = sf("%ld", c.i("dseed", 1) + 1);
-            Run same_size;
-            do_embed(same_size, make_data(cs), cs, false);
-            Case cp = c;
-            cp.kv["td"] = sf("%ld", c.i("td", 2) == 1 ? 2 : 1);
-            cp.kv["k"] = sf("%ld", c.i("k", 6) + 1);
-            cp.kv["width"] = "7.5";
-            Run same_data;
-            do_embed(same_data, X, cp, false);
-            r.addnum("history_calls", 2);
-        }
+        related_history(c, X, r);
         for (int q = 0; q < n; ++q)
         {
             Case co;
@@ -240,6 +319,28 @@ void run_meta(const Case& c, Result& r)
     if (dev > tol)
         r.violation(m + ":" + tr, sf("pairwise distances of the two embeddings differ by %.3g (tolerance %.3g from measured amplification %.3g; N=%d)", dev, tol,
                                      amp, N));
+    if (history)
+    {
+        Mat Yf;
+        std::string what;
+        if (!fresh_process_embedding(c, Yf, what))
+            r.inconclusive.push_back("fresh-process reference could not be obtained");
+        else if (what != "ok")
+            r.violation(m + ":hist:fresh-process-throws", "the call succeeds after other calls but throws in a process of its own");
+        else if (Yf.rows() != Y1.rows() || Yf.cols() != Y1.cols())
+            r.violation(m + ":hist:fresh-process-shape", "shape differs from the result of the same call in a process of its own");
+        else
+        {
+            double d1 = dist_dev(Y1, Yf), d2 = dist_dev(Y2, Yf);
+            r.maxnum("dev_vs_fresh_process", std::max(d1, d2));
+            r.addnum("fresh_process_references", 1);
+            if (std::max(d1, d2) > tol)
+                r.violation(m + ":hist:differs-from-fresh-process",
+                            sf("the result after earlier calls differs from the result of the same call in a process of its own by %.3g (first call) / "
+                               "%.3g (repeated call); tolerance %.3g",
+                               d1, d2, tol));
+        }
+    }
     r.nontrivial = true;
     r.tags.push_back(m + ":" + tr);
 }
@@ -549,6 +650,8 @@ void run_case(const Case& c, Result& r)
     std::string mode = c.s("mode");
     if (mode == "meta")
         run_meta(c, r);
+    else if (mode == "emit")
+        run_emit(c, r);
     else if (mode == "spe")
         run_spe(c, r);
     else if (mode == "rp")
